@@ -175,16 +175,41 @@ class Knowledge:
         ty = None
         if a[0] in ('init', 'hav'):
             ty = self.body.local_ty(a[1]).get('s')
+            # norm() drops dereferences: a reference to an integer stands for the integer
+            ty = re.sub(r"^&('\w+ )?(mut )?", '', str(ty))
         elif a[0] == 'cast':
             ty = a[3]
+            # a widening cast keeps the source's range
+            src = self.typed(a[2]) if a[2][0] in ('init', 'hav', 'index', 'cast', 'deref') else None
+            if src is not None and ty in INT_RANGES:
+                r = src.intersect(IntervalSet.of_type(ty))
+                if not r.empty() and r == src:
+                    return r
+        elif a[0] == 'deref':
+            return self.typed(a[1]) if a[1][0] in ('init', 'hav') and str(self.body.local_ty(a[1][1]).get('s', '')).lstrip('&mut ').strip() in INT_RANGES and False else self._deref_typed(a)
         elif a[0] == 'index':
             b = deref_all(a[1])
             if b[0] == 'const' and isinstance(b[1], tuple) and b[1] and all(isinstance(v, int) for v in b[1]):
                 return IntervalSet([(v, v) for v in sorted(set(b[1]))])
-            ty = 'u8' if True else None
+            # element of a byte slice / byte vector / byte array
+            from pat import access_path
+            r, st = access_path(a[1])
+            if r[0] in ('init', 'hav') and not st:
+                bty = str(self.body.local_ty(r[1]).get('s', ''))
+                if re.search(r'\[u8(;|\])|Vec<u8>', bty):
+                    return IntervalSet.of_type('u8')
             return None
         if ty in INT_RANGES:
             return IntervalSet.of_type(ty)
+        return None
+
+    def _deref_typed(self, a):
+        x = a[1]
+        if x[0] in ('init', 'hav'):
+            ty = str(self.body.local_ty(x[1]).get('s', ''))
+            ty = re.sub(r"^&('\w+ )?(mut )?", '', ty)
+            if ty in INT_RANGES:
+                return IntervalSet.of_type(ty)
         return None
 
     def nonneg(self, a):
@@ -201,8 +226,44 @@ class Knowledge:
             return True
         return False
 
-    def le(self, a, b, strict=False):
-        return self.pf.prove_le(norm(a), norm(b), strict)
+    def le(self, a, b, strict=False, depth=0):
+        if self.pf.prove_le(norm(a), norm(b), strict):
+            return True
+        if depth > 3:
+            return False
+        # std functions with a built-in bound
+        a0 = deref_all(a) if a[0] in ('ref', 'deref') else a
+        b0 = deref_all(b) if b[0] in ('ref', 'deref') else b
+        if a0[0] == 'call' and a0[2]:
+            n = canon(a0[1])
+            last = n.split('::')[-1]
+            if last == 'min' and len(a0[2]) == 2:
+                return self.le(a0[2][0], b, strict, depth + 1) or self.le(a0[2][1], b, strict, depth + 1)
+            if last == 'max' and len(a0[2]) == 2:
+                return self.le(a0[2][0], b, strict, depth + 1) and self.le(a0[2][1], b, strict, depth + 1)
+            if last == 'unwrap_or' and len(a0[2]) == 2:
+                return self.le(a0[2][1], b, strict, depth + 1) and self.le_payload(a0[2][0], b, strict, depth + 1)
+            if last == 'saturating_sub' and len(a0[2]) == 2:
+                return self.le(a0[2][0], b, strict, depth + 1)
+        if b0[0] == 'call' and b0[2]:
+            last = canon(b0[1]).split('::')[-1]
+            if last == 'min' and len(b0[2]) == 2:
+                return self.le(a, b0[2][0], strict, depth + 1) and self.le(a, b0[2][1], strict, depth + 1)
+            if last == 'max' and len(b0[2]) == 2:
+                return self.le(a, b0[2][0], strict, depth + 1) or self.le(a, b0[2][1], strict, depth + 1)
+        return False
+
+    def le_payload(self, opt, b, strict, depth):
+        """every value the Option term can carry is <= (<) b"""
+        o = deref_all(opt) if opt[0] in ('ref', 'deref') else opt
+        if o[0] == 'call' and o[2]:
+            last = canon(o[1]).split('::')[-1]
+            if last in ('position', 'rposition'):
+                # index of an element of the iterated slice: < its length
+                it = deref_all(o[2][0])
+                if it[0] == 'call' and it[2] and canon(it[1]).split('::')[-1] in ('iter', 'iter_mut', 'into_iter'):
+                    return self.le(('len', base_of(it[2][0])), b, False, depth + 1)
+        return False
 
     def is_some(self, t):
         """Is the Option/Result term known to be Some/Ok on this path?"""
@@ -295,7 +356,7 @@ def stable(desc):
 
 
 class Site:
-    __slots__ = ('fn', 'desc', 'loc', 'ok', 'paths', 'fail', 'kind', 'how')
+    __slots__ = ('fn', 'desc', 'loc', 'ok', 'paths', 'fail', 'kind', 'how', 'opaque')
 
     def __init__(self, fn, desc, loc, kind):
         self.fn = fn
@@ -306,6 +367,43 @@ class Site:
         self.paths = 0
         self.fail = None
         self.how = set()
+        self.opaque = None     # why the failed obligation could not be *refuted* either (information the prover lacks)
+
+
+TRANSPARENT_CALLS = ('branch', 'from_residual', 'into', 'from', 'deref', 'deref_mut', 'as_ref', 'as_mut', 'as_bytes', 'as_slice', 'as_str',
+                     'borrow', 'clone', 'index', 'index_mut', 'len', 'is_empty', 'min', 'max', 'unwrap', 'expect', 'unwrap_or', 'ok_or', 'map_err',
+                     'try_into', 'try_from', 'get', 'get_mut', 'saturating_sub', 'saturating_add', 'checked_add', 'checked_sub', 'to_vec',
+                     'as_ptr', 'read_u32', 'iter', 'pop_front', 'pop_back', 'pop')
+
+
+def opaque_container(t, body=None, analysable=None):
+    """A reason if the term involves a value the provers have no model for: the result of a library or crate call
+    (other than the handful modelled: len, get, min/max, `?` plumbing, numeric conversions ...) or program state after a
+    call that may have modified it.  A failed proof about such a term is lack of information, not a refutation."""
+    for x in subterms(t):
+        if x[0] == 'post':
+            if body is not None and analysable is not None and isinstance(x[1], int) and x[1] < len(body.blocks):
+                tt = body.blocks[x[1]]['term']
+                if tt.get('k') == 'call':
+                    from mir import callee_name
+                    if analysable(callee_name(tt)):
+                        continue      # a crate function whose effect on the cursor is summarised (cursor lemma): analysed, not opaque
+            return 'state after a call that may modify it'
+        if x[0] == 'call':
+            last = canon(x[1]).split('::')[-1]
+            if last in ('len', 'is_empty') and x[2] and body is not None:
+                # the size of a collection built locally (pushes in a loop, collect, iterator adaptors) is not modelled here
+                from pat import access_path
+                r, st = access_path(x[2][0])
+                l = r[1] if r[0] in ('init', 'hav') else (r[1][1] if r[0] == 'loc' and r[1][0] == 'L' else None)
+                if l is not None and l > body.argc:
+                    ty = str(body.local_ty(l).get('s', ''))
+                    if not ty.startswith(('&', '*')) and not re.match(r'^\[.*\]$', ty):
+                        return f'size of the locally built collection {body.name_of(l) or "_"}: {ty[:40]}'
+            if last in TRANSPARENT_CALLS:
+                continue
+            return f'result of {last}()'
+    return None
 
 
 class Inventory:
@@ -321,6 +419,7 @@ class Inventory:
         self._paths = {}
         self._lemmas = {}
         self._invs = {}
+        self._opaque_cur = {}   # fn -> {(cursor local, loop head): why its bound could not be established}
 
     def region_paths(self, body):
         key = body.path
@@ -335,6 +434,15 @@ class Inventory:
             self.capped.append(body.path)
         self._paths[key] = out
         return out
+
+    def lemma_applicable(self, fn):
+        """the crate function has the shape the cursor lemma summarises: (.., &[u8], .., &mut usize, ..) -> bool, loop-free"""
+        b = self.facts.bodies.get(fn)
+        if b is None:
+            return False
+        sl = [i for i in range(1, b.argc + 1) if b.local_ty(i).get('k') == 'ref' and b.local_ty(i)['inner'].get('s') == '[u8]']
+        cu = [i for i in range(1, b.argc + 1) if b.local_ty(i).get('k') == 'ref' and b.local_ty(i).get('mut') and b.local_ty(i)['inner'].get('s') == 'usize']
+        return len(sl) == 1 and len(cu) == 1 and b.local_ty(0).get('s') == 'bool' and not natural_loops(b)
 
     # ---- callee lemma: F(.., slice S, .., &mut usize I, ..) -> bool ; returns true  =>  *I' <= len(S)
     def cursor_lemma(self, fn):
@@ -440,6 +548,9 @@ class Inventory:
                     # the bound must be about the same buffer value at the end of the path
                     if not K.le(endv, ln):
                         ok = False
+                        why = opaque_container(endv, body, self.lemma_applicable)
+                        if why:
+                            self._opaque_cur.setdefault(body.path, {})[(l, h)] = why
                         break
                 if ok:
                     good.append((cur, ln))
@@ -485,13 +596,23 @@ class Inventory:
             self.sites[k] = s
         return s
 
-    def record(self, s, ok, how, why=None):
+    def record(self, s, ok, how, why=None, terms=(), conds=()):
         s.paths += 1
         if ok:
             s.how.add(how)
         elif s.ok:
             s.ok = False
             s.fail = why
+            s.opaque = None
+            for t in terms:
+                s.opaque = s.opaque or opaque_container(t, self.facts.bodies.get(s.fn), self.lemma_applicable)
+                for x in subterms(t):
+                    if x[0] == 'hav' and len(x) > 3:
+                        w = self._opaque_cur.get(s.fn, {}).get((x[1], x[3]))
+                        if w:
+                            s.opaque = s.opaque or f'loop cursor {x[2]} is advanced by the {w}'
+            for c in conds[-1:]:
+                s.opaque = s.opaque or opaque_container(c[0], self.facts.bodies.get(s.fn), self.lemma_applicable)
 
     def callee_always(self, name, variant):
         """Does a local callee return `variant` (Some/Ok) on every return path? (P-variant by callee summary)"""
@@ -536,7 +657,7 @@ class Inventory:
             ln, ix = e[2]
             s = self.site(body, f'index[{show(norm(ix))} < {show(norm(ln))}]', t, 'bounds')
             ok = K.le(ix, ln, strict=True)
-            self.record(s, ok, 'P-guard', f'no dominating condition bounds {show(norm(ix))} below {show(norm(ln))}')
+            self.record(s, ok, 'P-guard', f'no dominating condition bounds {show(norm(ix))} below {show(norm(ln))}', (ix, ln))
         elif kind.startswith('Overflow(Sub)'):
             c = e[4]
             ty = c[4] if c[0] == 'ovf' and len(c) > 4 else None
@@ -544,7 +665,7 @@ class Inventory:
                 a, b = e[2]
                 s = self.site(body, f'sub[{show(norm(a))} - {show(norm(b))}]:{ty}', t, 'underflow')
                 ok = K.le(b, a)
-                self.record(s, ok, 'P-guard', f'cannot show {show(norm(b))} <= {show(norm(a))}')
+                self.record(s, ok, 'P-guard', f'cannot show {show(norm(b))} <= {show(norm(a))}', (a, b))
         elif kind in ('DivisionByZero', 'RemainderByZero'):
             # the assert's condition is `divisor == 0` (expected false); constant divisors fold to a constant condition
             c = e[4]
@@ -567,7 +688,7 @@ class Inventory:
                 return
             msgs = [a.get('str') for a in t['args'] if a['k'] == 'const' and a.get('str')]
             s = self.site(body, f'{pk}!({msgs[0][:40] if msgs else ""})', t, pk)
-            self.record(s, False, '', f'explicit {pk}! is reachable on a feasible path')
+            self.record(s, False, '', f'explicit {pk}! is reachable on a feasible path', (), p.conds[:e[6]])
             return
         if called(name, 'Option::unwrap', 'Option::expect', 'Result::unwrap', 'Result::expect'):
             K = self.knowledge(body, p, e)
@@ -576,7 +697,7 @@ class Inventory:
             x = args[0]
             s = self.site(body, f'{canon(name).split("::")[-1]}({show(norm(x))})', t, 'unwrap')
             ok, how, why = self.prove_some(body, K, x, p, e)
-            self.record(s, ok, how, why)
+            self.record(s, ok, how, why, (x,))
             return
         if called(name, 'Index::index', 'IndexMut::index_mut') and len(args) == 2:
             K = self.knowledge(body, p, e)
@@ -586,7 +707,7 @@ class Inventory:
             ir = index_ranges(args[1])
             s = self.site(body, f'index({show(norm(base))}, {show(norm(deref_all(args[1])))})', t, 'index')
             ok, how, why = self.prove_index(body, K, base, ir, t)
-            self.record(s, ok, how, why)
+            self.record(s, ok, how, why, (('len', base), args[1]))
             return
         if called(name, 'slice::copy_from_slice', 'slice::split_at', 'slice::split_at_mut', 'Vec::remove', 'Vec::insert', 'Vec::swap_remove',
                   'Vec::drain', 'VecDeque::remove', 'slice::swap', 'Vec::split_off', 'String::insert', 'String::remove', 'str::split_at'):
@@ -602,7 +723,42 @@ class Inventory:
             elif called(name, 'Vec::insert') and len(args) >= 2:
                 ok = K.le(args[1], ('len', base_of(args[0])))
                 how = 'P-guard'
-            self.record(s, ok, how, 'argument not shown to be in range')
+            elif called(name, 'slice::split_at', 'slice::split_at_mut', 'str::split_at', 'Vec::split_off') and len(args) == 2:
+                ok = K.le(args[1], ('len', base_of(args[0])))
+                how = 'P-guard'
+            elif called(name, 'Vec::drain') and len(args) == 2:
+                ir = index_ranges(args[1])
+                ok, how, _ = self.prove_index(body, K, base_of(args[0]), ir, t)
+            elif called(name, 'slice::copy_from_slice') and len(args) == 2:
+                la, lb = norm_slice_len(args[0]), norm_slice_len(args[1])
+                if la is not None and lb is not None:
+                    ra, rb = K.pf.range_of_term(la), K.pf.range_of_term(lb)
+                    na, nb = self.static_len(body, args[0]), self.static_len(body, args[1])
+                    va = na if na is not None else (ra.lo() if not ra.empty() and ra.lo() == ra.hi() else None)
+                    vb = nb if nb is not None else (rb.lo() if not rb.empty() and rb.lo() == rb.hi() else None)
+                    ok = va is not None and va == vb
+                    how = 'P-range[equal lengths]'
+            self.record(s, ok, how, 'argument not shown to be in range', tuple(args))
+
+    def static_len(self, body, t):
+        """N if the term is (a reference to) a value of array type [T; N] (local or call result such as to_be_bytes)"""
+        from pat import access_path
+        r, st = access_path(t)
+        if st:
+            return None
+        l = None
+        if r[0] in ('init', 'hav'):
+            l = r[1]
+        elif r[0] == 'loc' and r[1][0] == 'L':
+            l = r[1][1]
+        if l is not None:
+            m = re.match(r'^\[.*; (\d+)\]$', body.local_ty(l).get('s', ''))
+            return int(m.group(1)) if m else None
+        if r[0] == 'call' and canon(r[1]).endswith(('to_be_bytes', 'to_le_bytes', 'to_ne_bytes')):
+            m = re.search(r'impl (\w+)>::to_', r[1])
+            w = {'u8': 1, 'i8': 1, 'u16': 2, 'i16': 2, 'u32': 4, 'i32': 4, 'u64': 8, 'i64': 8, 'f64': 8, 'f32': 4, 'u128': 16, 'i128': 16}
+            return w.get(m.group(1)) if m else None
+        return None
 
     def prove_some(self, body, K, x, p, e):
         """Prove that the unwrapped Option/Result is Some/Ok."""
@@ -756,6 +912,22 @@ def norm_slice_len(src):
     return ('len', norm(base_of(s)))
 
 
+_BASE_SITES = False
+
+
+def baseline_sites():
+    """{'sites': {(fn, cdesc)}, 'functions': {fn}} of the pinned tree (tools/gen_baseline_sites.py), or None"""
+    global _BASE_SITES
+    if _BASE_SITES is False:
+        p = os.path.join(VERIF, 'baseline_sites.json')
+        if os.path.exists(p):
+            j = json.load(open(p))
+            _BASE_SITES = {'sites': {tuple(x) for x in j['sites']}, 'functions': set(j['functions'])}
+        else:
+            _BASE_SITES = None
+    return _BASE_SITES
+
+
 def report_sites(run, rule, inv, assume, floor=None):
     n = 0
     from report import canon_desc
@@ -782,6 +954,13 @@ def report_sites(run, rule, inv, assume, floor=None):
                 chosen[(fn, desc)] = e
                 used.add(k)
                 break
+    base = baseline_sites()
+    rec = os.environ.get('VERIF_RECORD_SITES')
+    if rec:
+        with open(rec, 'a') as fh:
+            for (fn, desc), s in items:
+                if s.ok or (fn, desc) in chosen:
+                    fh.write(json.dumps([fn, canon_desc(run.facts, fn, desc)]) + '\n')
     for (fn, desc), s in items:
         n += 1
         if s.ok:
@@ -790,6 +969,18 @@ def report_sites(run, rule, inv, assume, floor=None):
             a = chosen.get((fn, desc))
             if a is not None:
                 run.assumed(rule, fn, desc, a['reason'], s.loc)
+                continue
+            cd = canon_desc(run.facts, fn, desc)
+            if s.opaque and base is not None:
+                run.undecided(rule, fn, desc, f'panic site not discharged, but not refuted either ({s.opaque}, which the provers do not model): {s.fail}', s.loc)
+            elif base is None or (fn, cd) in base['sites']:
+                # the same construct was discharged on the pinned tree: its guard has been weakened or removed
+                run.violation(rule, fn, desc, f'panic site not discharged: {s.fail}' + ('' if base is None else ' (this site was discharged on the pinned tree: its guard changed)'), s.loc)
+            elif fn not in base['functions']:
+                run.undecided(rule, fn, desc, f'panic site in a function that did not exist on the pinned tree, not discharged: {s.fail}; '
+                              f'whether its callers establish the bound is not decided', s.loc)
+            elif s.opaque:
+                run.undecided(rule, fn, desc, f'panic site not discharged, but not refuted either ({s.opaque}, which the provers do not model): {s.fail}', s.loc)
             else:
                 run.violation(rule, fn, desc, f'panic site not discharged: {s.fail}', s.loc)
     for p in inv.capped:
